@@ -102,6 +102,26 @@ func compiledRouteKey(route *ast.Route) string {
 	return route.Method.String() + " " + route.Path
 }
 
+// hasNonLiteralQueryDefault reports whether a route declares a query parameter
+// whose default the compiled handler cannot evaluate (see evalLiteralExpr).
+func hasNonLiteralQueryDefault(module *ast.Module) bool {
+	for _, item := range module.Items {
+		route, ok := item.(*ast.Route)
+		if !ok {
+			continue
+		}
+		for _, decl := range route.QueryParams {
+			if decl.Default == nil {
+				continue
+			}
+			if _, literal := evalLiteralExpr(decl.Default); !literal {
+				return true
+			}
+		}
+	}
+	return false
+}
+
 // setupRoutes handles the common logic of determining execution mode, compiling routes,
 // and setting up the router. Used by both startServer and prepareDevServer.
 // filePath is the path to the source file, used for resolving relative module imports.
@@ -122,6 +142,15 @@ func setupRoutes(module *ast.Module, filePath string, forceInterpreter ...bool) 
 			useCompiler = false
 			break
 		}
+	}
+
+	// So does a query-parameter default that is not a bare literal (-1,
+	// 10 * 2): the compiled handler can only evaluate literals and would skip
+	// the default, leaving the variable unbound - a request that merely omits
+	// the parameter then fails with "undefined variable".
+	if useCompiler && hasNonLiteralQueryDefault(module) {
+		printInfo("A query parameter default is an expression, using interpreter mode")
+		useCompiler = false
 	}
 
 	// Warn early when an LLM route has no provider configured, rather than
